@@ -128,10 +128,10 @@ _ALL = list(range(sc.NOPS))
 _o = sc.op_of
 # quick: every first opcode on the in-memory cassette, a representative subset on file/S3 (the cassette-specific code
 # does not depend on the program shape); tails over a subset of opcodes.  thorough: everything, L = 3, repeat <= 12.
-_QTAIL = [_o('A', 1), _o('D', 1), _o('H'), _o('N'), _o('O', 1), _o('U')]
-_TTAIL = [_o('A', 0), _o('A', 1), _o('B', 1), _o('S', 1), _o('P'), _o('R', 1), _o('C', 1), _o('D', 0), _o('D', 1), _o('H'), _o('N'),
+_QTAIL = [_o('A', 1), _o('D', 1), _o('H'), _o('N'), _o('M', 1), _o('O', 1), _o('U')]
+_TTAIL = [_o('A', 0), _o('A', 1), _o('B', 1), _o('S', 1), _o('P'), _o('R', 1), _o('C', 1), _o('D', 0), _o('D', 1), _o('H'), _o('N'), _o('M', 0), _o('M', 1),
           _o('O', 1), _o('T'), _o('U')]
-_QSUB = [None, _o('A', 1), _o('D', 1), _o('H'), _o('O', 1), _o('U'), _o('X', 1)]
+_QSUB = [None, _o('A', 1), _o('D', 1), _o('H'), _o('M', 1), _o('O', 1), _o('U'), _o('X', 1)]
 _W = {'cassette': 'mem', 'first': _o('A', 1)}
 CONDITIONS = [
     {'fn': 'roundtrip', 'nontrivial': 'two-calls',
